@@ -33,6 +33,9 @@ CLAIMS = {
  "C16": ("edge-dominance of every lookup call by the policy flag; who-may-call on service requests; containment of the fetch in the single-flight literal with key/name identity; typestate of the install (fetch ok => install => flush => handle, failure writes nothing); phi-source analysis of the fetch context with constant timeout; dependence slicing of every retry edge (winner witness or bounded counter); edge-cut reachability for 'only context errors are retried'",
          "Structural necessary conditions, decided on all paths: with lookups disabled no lookup or request is reachable and unknown names are reported (or panic in Secret); a lookup's request runs only inside the per-name single-flight; a fetched secret is installed only on success, then flushed, and every waiter gets a handle for it; a failed lookup installs nothing and is not retried unless it is a context error while the caller's own context is alive; a caller without deadline gets a <= 5 minute derived timeout, and the retry edge can tell the caller whose own timeout fired from a waiter (so the 5-minute limit holds). Does not decide behaviour over virtual time.",
          "singleflight.Do runs fn synchronously in the winner and hands every caller the same result", "4/C16"),
+ "C13": ("must-pass-through from every change of the active set to a cache write before the lock is released; phi-source analysis of NewStore's want-flush flag; value identity of the flushed document (live map, one Write); who-may-write files in the client library with constant modes; JSON wire signatures of cache writer and file-client reader computed from go/types; control-dependence of NewStore's error returns; edge analysis of the validity gate",
+         "Structural necessary conditions, decided on all paths: whenever the store installs, replaces or removes a value, and when its poller shuts down, the whole live map is marshalled and handed to the cache in one write; the file cache is replaced atomically with owner-only permissions; cache writer and file-backed reader agree on the record format (documented shape); NewStore never fails because of the cache and clears a partially decoded or invalid map before use; the validity gate rejects exactly the nil levels later code dereferences unchecked. Does not decide what encoding/json does with arbitrary bytes.",
+         "encoding/json does not panic on malformed input; atomicfile.WriteFile is atomic (C04)", "4/C13"),
  "C03": ("typestate on SSA CFG paths (mutation => save => tested error before any return), value-flow of the bytes handed to the file writer, edge-dominance on the open path, JSON wire-signature computed from go/types against the frozen v1 signature, reader/writer sibling agreement",
          "Structural necessary conditions, decided on all paths: no mutator of the persistent state can return without having called the file-writing save and tested its error; what is saved is the live map, wrapped as documented; opening writes only when the file does not exist; the v1 wire layout (keys, encodings, AEAD contexts, key template, schema constant) is unchanged and reader and writer agree. Does not decide state equality after arbitrary histories nor decoding of real old files.",
          "encoding/json encodes according to the computed shape; tink keyset reader/writer are inverse; the v1 layout is the one documented on db.kv", "4/C03"),
